@@ -54,6 +54,11 @@ func genC06(level int) []*CacheScen {
 					}
 				}
 			}
+			// the callback is swapped or removed while a pass that evicts two entries (or a remover) runs
+			for _, sw := range []CIn{{Op: CSetCallback, CB: 0}, {Op: CSetCallback, CB: 2}} {
+				add(&CacheScen{Rel: RelSD, NKeys: 2, Init: []int{ini, IExpired}, Table: TPlain, Threads: [][]CIn{{cDelExp}, {sw}}})
+				add(&CacheScen{Rel: RelSD, NKeys: 2, Init: []int{ini, IExpired}, Table: TPlain, Threads: [][]CIn{{con(cDelete, 0), con(cGaD, 1)}, {sw}}})
+			}
 			// two expired keys in one bucket, two cleanup passes
 			add(&CacheScen{Rel: RelSS, NKeys: 2, Init: []int{ini, IExpired}, Table: TPlain, Threads: [][]CIn{{cDelExp}, {cDelExp}}})
 			if level >= 1 {
